@@ -41,3 +41,78 @@ func VerifH_C09_query_canonical() {
 	verifrt.Assert(sa == c09Want[k], "C09 query parameters keep their order and multiplicity")
 	verifrt.Assert(a.String() == sa, "C09 the canonical string of one URL object is stable")
 }
+
+func c09Alpha(s string, alpha string) {
+	for i := 0; i < len(s); i++ {
+		var in []bool
+		for j := 0; j < len(alpha); j++ {
+			in = append(in, s[i] == alpha[j])
+		}
+		verifrt.Assume(verifrt.Any(in...))
+	}
+}
+
+// c09RefQuery is the canonical form of a WELL-FORMED query (letters, digits, '=', '&' only), written from the statement:
+// the parameters in source order, each as key=value (a key without '=' gets an empty value; a '=' inside the value is escaped), empty pairs dropped.
+func c09RefQuery(q string) string {
+	out := ""
+	start := 0
+	for i := 0; i <= len(q); i++ {
+		if i == len(q) || q[i] == '&' {
+			pair := q[start:i]
+			start = i + 1
+			if pair == "" {
+				continue
+			}
+			eq := -1
+			for j := 0; j < len(pair); j++ {
+				if pair[j] == '=' {
+					eq = j
+					break
+				}
+			}
+			if out != "" {
+				out += "&"
+			}
+			if eq == -1 {
+				out += pair + "="
+			} else {
+				out += pair[:eq+1]
+				for j := eq + 1; j < len(pair); j++ { // a further '=' belongs to the value and is written escaped
+					if pair[j] == '=' {
+						out += "%3D"
+					} else {
+						out += pair[j : j+1]
+					}
+				}
+			}
+		}
+	}
+	return out
+}
+
+// VerifH_C09_encode_query: the query canonicaliser on every query text of up to 5 bytes over the characters it and
+// net/url look at: re-encoding its own output changes nothing (idempotence), well-formed parameters keep their order
+// and multiplicity (reference above), and no input makes it panic.
+func VerifH_C09_encode_query() {
+	q := verifrt.String("query", 5)
+	c09Alpha(q, "a2=&%+;")
+	once := encodeQuery(q)
+	twice := encodeQuery(once)
+	verifrt.Assert(twice == once, "C09 normalising a canonical query again leaves it unchanged")
+	wellFormed := true
+	for i := 0; i < len(q); i++ {
+		if q[i] == '%' || q[i] == '+' || q[i] == ';' {
+			wellFormed = false
+		}
+	}
+	if wellFormed {
+		verifrt.Cover("well-formed-query")
+		verifrt.Assert(once == c09RefQuery(q), "C09 query parameters keep their order and multiplicity")
+	} else {
+		verifrt.Cover("escapes-in-query")
+	}
+	for i := 0; i < len(once); i++ {
+		verifrt.Assert(once[i] != '#' && once[i] != ' ' && once[i] != ';', "C09 the canonical query contains no fragment mark, blank or semicolon")
+	}
+}
